@@ -1,0 +1,17 @@
+//go:build verif
+
+package vm
+
+// C04, VM side: every instruction changes the height of the data stack by exactly the effect of DESIGN.md Appendix A
+// (the table the compiler-side proof threads through emit). The arms of eval are not units of their own, so this is a
+// structural obligation over the SSA of eval (scan kind armeffects): for every case of the opcode switch, the net
+// number of push / pop calls along EVERY path from the case back to the head of the interpreter loop is one of the
+// listed effects; "j" marks the paths on which the arm itself stores ip (a jump). So a conditional jump pops its
+// operand on both paths (-1 and -1j), and ForIter leaves -1 exactly when it jumps to the loop's exit and 0, 1 or 2
+// (iterator back on the stack plus the loop variables) when it falls into the body. Seed C04i made ForIter skip
+// entries removed during the iteration and, when none was left, jump to the exit AFTER pushing the iterator back:
+// a path "0j", one slot leaked per loop. Paths that return or panic leave the loop and are not counted; callObject
+// pushes its result when it succeeds (C04.vm.callobject). Not decided: the arms whose effect depends on an operand
+// (they pop in a loop): BuildList, BuildMap, BuildSet, BuildString, Call, Partial, LoadClosure, FromImport, Unpack are
+// listed as "loop".
+//@ scan[C04.vm.arm.effects] C04 armeffects (*VirtualMachine).eval: BinaryOp=-1 BinarySubscr=-1 CompareOp=-1 ContainsOp=-1 Copy=1 Defer=-1 Go=-1 False=1 True=1 Nil=1 ForIter=-1j/0/1/2 GetIter=0 Halt= Import=0 JumpBackward=0j JumpForward=0j Length=0 LoadAttr=0 LoadConst=1 LoadFast=1 LoadFree=1 LoadGlobal=1 MakeCell=1 PopJumpForwardIfFalse=-1/-1j PopJumpForwardIfTrue=-1/-1j PopTop=-1 Range=0 Receive=0 ReturnValue=0 Send=-2 Slice=-2 StoreAttr=-2 StoreFast=-1 StoreFree=-1 StoreGlobal=-1 StoreSubscr=-3 Swap=0 UnaryNegative=0 UnaryNot=0 BuildList=loop BuildMap=loop BuildSet=loop BuildString=loop Call=loop Partial=loop LoadClosure=loop FromImport=loop Unpack=loop
